@@ -31,6 +31,11 @@ package extendeddaemonsetsetting
 //@             0 <= a && a < len(nodeList.Items) && 0 <= s && s < len(edsNodeList.Items) && 0 <= t && t < len(edsNodeList.Items)
 //@             && edsNodeList.Items[t].ObjectMeta.Name == instance.ObjectMeta.Name && before(&edsNodeList.Items[s], &edsNodeList.Items[t])
 //@             && selects(&edsNodeList.Items[t], &nodeList.Items[a]) ==> !selects(&edsNodeList.Items[s], &nodeList.Items[a])
+//@   ensures [C18] an-error-means-an-unusable-selector-or-a-real-overlap: result1 != nil ==>
+//@             (exists s int :: 0 <= s && s < len(edsNodeList.Items) && snd(metav1.LabelSelectorAsSelector(&edsNodeList.Items[s].Spec.NodeSelector)) != nil)
+//@             || (exists a int, s int, t int :: 0 <= a && a < len(nodeList.Items) && 0 <= s && s < len(edsNodeList.Items) && 0 <= t && t < len(edsNodeList.Items)
+//@                 && s != t && edsNodeList.Items[t].ObjectMeta.Name == instance.ObjectMeta.Name
+//@                 && selects(&edsNodeList.Items[s], &nodeList.Items[a]) && selects(&edsNodeList.Items[t], &nodeList.Items[a]))
 //@   loop 1 invariant len(edsNodes) == iter() && (edsNodes == nil || freshroot(edsNodes))
 //@   loop 1 invariant forall k int :: 0 <= k && k < len(edsNodes) ==> edsNodes[k] == &edsNodeList.Items[k]
 //@   loop 2 invariant nodesAlreadySelected != nil && fresh(nodesAlreadySelected)
@@ -42,6 +47,7 @@ package extendeddaemonsetsetting
 //@   loop 3 invariant forall b int :: iter(2) < b && b < len(nodeList.Items) ==> !(nodeList.Items[b].ObjectMeta.Name in nodesAlreadySelected)
 //@   loop 3 invariant [C18] forall a int, i int, j int :: 0 <= a && a < iter(2) && 0 <= i && i < j && j < len(edsNodes)
 //@             && edsNodes[j].ObjectMeta.Name == instance.ObjectMeta.Name && selects(edsNodes[j], &nodeList.Items[a]) ==> !selects(edsNodes[i], &nodeList.Items[a])
+//@   loop 3 invariant (nodeList.Items[iter(2)].ObjectMeta.Name in nodesAlreadySelected) ==> exists i int :: 0 <= i && i < iter() && selects(edsNodes[i], &nodeList.Items[iter(2)])
 //@   loop 3 invariant forall i int :: 0 <= i && i < iter() && selects(edsNodes[i], &nodeList.Items[iter(2)]) ==> (nodeList.Items[iter(2)].ObjectMeta.Name in nodesAlreadySelected)
 //@   loop 3 invariant [C18] forall i int, j int :: 0 <= i && i < j && j < iter()
 //@             && edsNodes[j].ObjectMeta.Name == instance.ObjectMeta.Name && selects(edsNodes[j], &nodeList.Items[iter(2)]) ==> !selects(edsNodes[i], &nodeList.Items[iter(2)])
@@ -76,6 +82,12 @@ package extendeddaemonsetsetting
 //@             I.Spec.Reference != nil && I.Spec.Reference.Name != "" && cast(logsent(k), "*v1.ExtendedDaemonsetSetting").Status.Error == ""
 //@   ensures [C18] valid-only-without-an-earlier-overlapping-setting: forall k int :: lognew(k) && logverb(k) == "StatusUpdate" && k == n0 + 3 && cast(logsent(k), "*v1.ExtendedDaemonsetSetting").Status.Status == "valid" ==>
 //@             noEarlierOverlap(I, NL, SL)
+//@   ensures [C18] a-usable-setting-that-overlaps-no-other-becomes-valid: forall k int :: lognew(k) && logverb(k) == "StatusUpdate" && k == n0 + 3
+//@             && !logfailed(n0 + 1) && !logfailed(n0 + 2) && I.Spec.Reference != nil && I.Spec.Reference.Name != ""
+//@             && (forall s int :: 0 <= s && s < len(SL.Items) ==> snd(metav1.LabelSelectorAsSelector(&SL.Items[s].Spec.NodeSelector)) == nil)
+//@             && (forall a int, s int, t int :: 0 <= a && a < len(NL.Items) && 0 <= s && s < len(SL.Items) && 0 <= t && t < len(SL.Items) && s != t
+//@                 && SL.Items[t].ObjectMeta.Name == I.ObjectMeta.Name && selects(&SL.Items[t], &NL.Items[a]) ==> !selects(&SL.Items[s], &NL.Items[a]))
+//@             ==> cast(logsent(k), "*v1.ExtendedDaemonsetSetting").Status.Status == "valid" && cast(logsent(k), "*v1.ExtendedDaemonsetSetting").Status.Error == ""
 //@   ensures [C18] only-the-status-of-the-reconciled-object-is-written: forall k int :: lognew(k) && logverb(k) == "StatusUpdate" ==>
 //@             cast(logsent(k), "*v1.ExtendedDaemonsetSetting").ObjectMeta.Name == I.ObjectMeta.Name && cast(logsent(k), "*v1.ExtendedDaemonsetSetting").ObjectMeta.Namespace == I.ObjectMeta.Namespace && shapeeq(cast(logsent(k), "*v1.ExtendedDaemonsetSetting").Spec, I.Spec)
 //@
